@@ -49,24 +49,28 @@ func c06Impl() *verifc06.Impl {
 }
 
 func TestVerifC06_refcheck_x448(t *testing.T) {
+	t.Parallel()
 	r := verifmc.Start(t, "C06", "refcheck_x448")
 	defer r.Finish()
 	verifc06.RunRefcheck(t, r, verifc06.P448, "testdata")
 }
 
 func TestVerifC06_shared_x448(t *testing.T) {
+	t.Parallel()
 	r := verifmc.Start(t, "C06", "shared_x448")
 	defer r.Finish()
 	verifc06.RunShared(r, c06Impl())
 }
 
 func TestVerifC06_keygen_x448(t *testing.T) {
+	t.Parallel()
 	r := verifmc.Start(t, "C06", "keygen_x448")
 	defer r.Finish()
 	verifc06.RunKeyGen(r, c06Impl())
 }
 
 func TestVerifC06_agree_x448(t *testing.T) {
+	t.Parallel()
 	r := verifmc.Start(t, "C06", "agree_x448")
 	defer r.Finish()
 	verifc06.RunAgree(r, c06Impl())
